@@ -33,6 +33,7 @@ type PFObs struct {
 	Res      string `json:"res"`   // "doc" | "verifier" | "refused"
 	Class    string `json:"class"` // of a refusal, from the error text (informative only: wording is not judged)
 	From     string `json:"from"`
+	Reload   string `json:"reload"`   // "n/a" | "fresh" | "stale": the same call again after the file was rewritten in place (same length, time stamp put back)
 	Verified string `json:"verified"` // "n/a" | "pass" | "fail": a good signature under the verifier that was built
 	Note     string `json:"-"`
 }
@@ -106,7 +107,7 @@ func runPolicyFiles() int {
 				panic("unknown file kind " + kind)
 			}
 		}
-		obs := PFObs{From: "-", Verified: "n/a"}
+		obs := PFObs{From: "-", Verified: "n/a", Reload: "n/a"}
 		// the trust store directory of the same configuration root: one store per policy file, exactly one holds the signer's root
 		chain := stdChainByKey("good3")
 		for which := range pfFile {
@@ -202,6 +203,40 @@ func runPolicyFiles() int {
 		})
 		if panicked {
 			obs.Panic, obs.Note = true, msg
+		}
+		// the file that was used is rewritten in place - same length, its time stamp put back (an editor that preserves times, a
+		// restore, a coarse-grained file system) - and the same call is made again: it sees what the file holds NOW
+		if !panicked && obs.From != "-" && in.Cfg[obs.From] == "valid" {
+			p := filepath.Join(cfg, pfFile[obs.From])
+			if fi, err := os.Lstat(p); err == nil && fi.Mode().IsRegular() {
+				b, _ := os.ReadFile(p)
+				nb := []byte(strings.Replace(string(b), `"strict"`, `"strikt"`, 1)) // no longer a valid document
+				if len(nb) == len(b) && string(nb) != string(b) {
+					must(os.WriteFile(p, nb, 0600))
+					_ = os.Chtimes(p, fi.ModTime(), fi.ModTime())
+					obs.Reload = "stale"
+					_, _ = guarded(func() {
+						switch in.Op {
+						case "LoadOCI":
+							if d, err := trustpolicy.LoadOCIDocument(); err != nil || d.Validate() != nil {
+								obs.Reload = "fresh"
+							}
+						case "LoadBlob":
+							if d, err := trustpolicy.LoadBlobDocument(); err != nil || d.Validate() != nil {
+								obs.Reload = "fresh"
+							}
+						case "NewOCI":
+							if _, err := verifier.NewOCIVerifierFromConfig(); err != nil {
+								obs.Reload = "fresh"
+							}
+						case "NewBlob":
+							if _, err := verifier.NewBlobVerifierFromConfig(); err != nil {
+								obs.Reload = "fresh"
+							}
+						}
+					})
+				}
+			}
 		}
 		if *flagLie == "source" && c.ID%97 == 7 {
 			obs.Res = "doc"
